@@ -271,7 +271,10 @@ func signTimes(id int, before, after []byte, cfg h.SignConfig, desc string) []h.
 	case 1:
 		want = 1504657553
 	case 2:
-		return nil
+		// no option: only a deterministic image keeps the clock out
+		if bi.H.ID != [16]byte{} || bi.H.Ctime != h.ZeroTime || bi.H.Mtime != h.ZeroTime {
+			return nil
+		}
 	}
 	bad := func(format string, a ...any) {
 		out = append(out, h.Finding{Property: "C12", Case: id, What: fmt.Sprintf(format, a...), Input: desc})
@@ -810,18 +813,35 @@ func legacyFindings(k *h.Keys, base []byte, c *h.VCase, desc, class string) []h.
 		bad("verification succeeded without examining any signature")
 	}
 	bi, _ := h.DecodeImage(base)
-	if c.Opts.LegacyAll {
-		// "all grouped non-signature objects" are covered
+	if legacyMode {
+		// every covered object - the named objects, the named groups, or with no narrowing all
+		// grouped non-signature objects - is under a signature that was examined
 		covered := map[int64]bool{}
 		for _, r := range c.Obs.Results {
 			for _, rg := range r.Ranges {
 				covered[rg[0]] = true
 			}
 		}
+		named := func(d h.SDesc) bool {
+			if len(c.Opts.Groups) == 0 && len(c.Opts.Objects) == 0 {
+				return d.GroupID() != 0
+			}
+			for _, g := range c.Opts.Groups {
+				if d.GroupID() == g {
+					return true
+				}
+			}
+			for _, id := range c.Opts.Objects {
+				if d.ID == id {
+					return true
+				}
+			}
+			return false
+		}
 		mi, _ := h.DecodeImage(c.Image)
 		for _, d := range mi.Descs {
-			if d.Used && d.GroupID() != 0 && d.Type != h.DataSignature && !covered[d.Off] {
-				bad("OptVerifyLegacyAll succeeded without covering grouped object %d", d.ID)
+			if d.Used && d.Type != h.DataSignature && named(d) && !covered[d.Off] {
+				bad("legacy verification (all=%v groups=%v objects=%v) succeeded without a signature over object %d of group %d", c.Opts.LegacyAll, c.Opts.Groups, c.Opts.Objects, d.ID, d.GroupID())
 			}
 		}
 	}
@@ -946,6 +966,7 @@ func runSignedBy(s *summary, k *h.Keys, root *h.Rng, n int, thorough bool, addCa
 		forged := false
 		forgedGroup := uint32(0)
 		groupSigners := map[uint32]map[string]bool{}
+		legacyObj := map[uint32]uint32{} // group -> member carrying its own legacy signature
 		// 0-3 PGP signers per group, DSSE signatures without fingerprints mixed in, unsigned groups
 		for _, g := range info.Groups {
 			f, _ := sif.LoadContainer(b, sif.OptLoadWithCloseOnUnload(false))
@@ -969,7 +990,7 @@ func runSignedBy(s *summary, k *h.Keys, root *h.Rng, n int, thorough bool, addCa
 				}
 				desc += fmt.Sprintf(" group %d signed by dsse key %s;", g, name)
 			}
-			if r.Chance(1, 5) { // legacy signatures on the group and on one object
+			if r.Chance(1, 3) { // legacy signatures on the group and on one object
 				e := r.Intn(3)
 				img := bytes.Clone(b.Bytes())
 				sig := h.ClearSign(k, e, h.LegacyPlaintext(crypto.SHA384, h.GroupData(img, g), true))
@@ -979,7 +1000,14 @@ func runSignedBy(s *summary, k *h.Keys, root *h.Rng, n int, thorough bool, addCa
 					for _, d := range si.Descs {
 						if d.Used && d.ID == id && d.Type != h.DataSignature {
 							sg := h.ClearSign(k, e, h.LegacyPlaintext(crypto.SHA384, h.SectionBytes(img, d), false))
-							_ = h.AddRawSignature(b, sg, 0, id, crypto.SHA384, k.Entities[e].PrimaryKey.Fingerprint, 0)
+							e2 := (e + 1 + r.Intn(2)) % 3 // the object's signer differs from the group's
+							if r.Chance(1, 2) {
+								sg = h.ClearSign(k, e2, h.LegacyPlaintext(crypto.SHA384, h.SectionBytes(img, d), false))
+								_ = h.AddRawSignature(b, sg, 0, id, crypto.SHA384, k.Entities[e2].PrimaryKey.Fingerprint, 0)
+							} else {
+								_ = h.AddRawSignature(b, sg, 0, id, crypto.SHA384, k.Entities[e].PrimaryKey.Fingerprint, 0)
+							}
+							legacyObj[g] = id
 						}
 					}
 					break
@@ -1067,6 +1095,20 @@ func runSignedBy(s *summary, k *h.Keys, root *h.Rng, n int, thorough bool, addCa
 				vo.Objects = []uint32{uint32(1 + r.Intn(6))}
 			}
 			sels = append(sels, vo)
+		}
+		for _, g := range info.Groups {
+			// legacy requests that name a group and one of its own members, each with its own signature
+			if id, ok := legacyObj[g]; ok {
+				vo := base
+				vo.Legacy, vo.Groups, vo.Objects = true, []uint32{g}, []uint32{id}
+				sels = append(sels, vo)
+				vo = base
+				vo.Legacy, vo.Objects = true, []uint32{id}
+				sels = append(sels, vo)
+				vo = base
+				vo.LegacyAll, vo.Groups = true, []uint32{g}
+				sels = append(sels, vo)
+			}
 		}
 		if forgedGroup != 0 {
 			// requests aimed at the group whose signature names the wrong entity
